@@ -93,6 +93,29 @@ def run_one(ck, prog):
         ck.floor("C16.1", "end-bound computations", len(ends), 1)
         ck.ob("C16.1", "no-addr-of-in-iterator", not addr_of_pointer_sites(prog, it[0]), fn=it[0]["path"], detail="address of a pointer variable used in the traversal arithmetic")
 
+    # the first header exists only if the RECEIVED control length holds one: msg_control is looked at only under msg_controllen >= size_of(cmsghdr)
+    cm = [f for p2, f in prog.fns.items() if p2.startswith("rusl::platform::compat::socket::MsgHdrBorrow") and p2.endswith("::control_messages")]
+    if ck.anchor("C16.1", "MsgHdrBorrow::control_messages", cm):
+        c2 = prog.ctx(cm[0])
+        reads = []
+        for b in cm[0]["blocks"]:
+            if b["id"] not in c2.cfg.live_blocks() or b.get("cleanup"):
+                continue
+            for i, st in enumerate(b["stmts"]):
+                if st["k"] == "assign" and st["rv"]["k"] == "use" and st["rv"]["a"]["k"] in ("copy", "move") and any(pe["k"] == "field" and pe.get("n") == "msg_control" for pe in (st["rv"]["a"]["p"].get("p") or [])):
+                    reads.append((b["id"], st.get("sp")))
+        ck.floor("C16.1", "reads of msg_control in control_messages", len(reads), 1)
+        for k, (rb, sp) in enumerate(reads):
+            facts = panics.dominating_facts(c2, rb)
+            ok = False
+            for f in facts:
+                if f[0] == "cmp" and f[1] in ("Ge", "Gt", "Le", "Lt"):
+                    big, small = (f[2], f[3]) if f[1] in ("Ge", "Gt") else (f[3], f[2])
+                    if mentions(big, c2.prov, lambda z: z[0] == "field" and z[2] == "msg_controllen") and (fold(small) in (16, 15) or mentions(small, c2.prov, lambda z: z[0] == "call" and (z[1] or "").endswith("mem::size_of"))):
+                        ok = True
+            ck.ob("C16.1", f"first-header-only-if-control-length-holds-one|read#{k}", ok, fn=cm[0]["path"], site=span_str(sp),
+                  detail="msg_control is used as the first control message without testing msg_controllen >= size_of(cmsghdr): after a receive without ancillary data the iterator parses stale bytes of the caller's buffer (re-delivering old or forged descriptors) or reads past a short buffer")
+
     # ---- C16.2 try-variants cannot block ---------------------------------------------------------------------------------
     cg = prog.callgraph()
     n_try = 0
@@ -189,6 +212,59 @@ def run_one(ck, prog):
             same = bool(first_ops) and bool(retry_ops) and all(tuple(canon(x) for x in ctx.args(r0)) == tuple(canon(x) for x in ctx.args(first_ops[0])) and cfg.term(r0).get("callee") == cfg.term(first_ops[0]).get("callee") for r0 in retry_ops)
             ck.ob("C16.3", f"{p}|operation-retried-with-same-arguments", same, fn=p, site=ctx.site(pb), detail="once the descriptor is ready the original operation must be retried with the same arguments")
     ck.floor("C16.3", "Timeout construction sites", n_to, 3)
+    # the wait matches the operation: reads/accepts/receives wait for POLLIN, writes/sends/connects for POLLOUT
+    IN_OPS = ("unistd::read::read", "accept::accept_unix", "accept::accept_inet", "recvmsg::recvmsg", "unistd::read::readv", "network::recv")
+    OUT_OPS = ("unistd::write::write", "connect::connect_unix", "connect::connect_inet", "sendmsg::sendmsg", "unistd::write::writev", "network::send")
+
+    def ev_name(e, c):
+        for z in walk_deep(e, c.prov, limit=120):
+            if z[0] == "const" and z[2] and "PollEvents::POLL" in z[2]:
+                return z[2].rsplit("::", 1)[1]
+        return None
+
+    def op_kind(path, seen=None):
+        """IN / OUT / None for the operations a function (closure) performs, looking one level of local callees deep."""
+        seen = seen or set()
+        if path in seen or path not in prog.fns:
+            return set()
+        seen.add(path)
+        kinds = set()
+        for b in prog.fns[path]["blocks"]:
+            t = b["term"]
+            if t["k"] == "call" and not b.get("cleanup"):
+                cal = (t.get("resolved") or t.get("callee") or "")
+                if cal.endswith(IN_OPS):
+                    kinds.add("POLLIN")
+                if cal.endswith(OUT_OPS):
+                    kinds.add("POLLOUT")
+        return kinds
+    n_dir = 0
+    for p, fn in sorted(prog.fns.items()):
+        if fn["crate"] != "tiny_std" or fn.get("is_test") or "::test" in p:
+            continue
+        ctx = prog.ctx(fn)
+        for bb, t in ctx.cfg.calls(lambda t: (t.get("callee") or "").endswith("PollFd::new")):
+            a = ctx.args(bb)
+            ev = ev_name(a[1], ctx) if len(a) > 1 else None
+            if ev is None:
+                continue   # events supplied by the caller: checked at the call sites below
+            kinds = op_kind(p)
+            n_dir += 1
+            ck.ob("C16.3", f"{p}|waits-for-matching-readiness", kinds == {ev}, fn=p, site=ctx.site(bb),
+                  detail=f"the function performs {sorted(kinds) or 'no recognised'}-type operations but waits for {ev}: a writer whose send buffer is full must wait for POLLOUT (waiting for POLLIN blocks for ever once the peer is idle)")
+        for bb, t in ctx.cfg.calls(lambda t: (t.get("callee") or "").endswith("sock_nonblock_op_poll_if_not_ready")):
+            a = ctx.args(bb)
+            ev = ev_name(a[2], ctx) if len(a) > 2 else None
+            clos = [z for z in walk_deep(a[-1], ctx.prov, limit=120) if z[0] == "agg" and z[1] == "closure"] if a else []
+            kinds = set()
+            for b in fn["blocks"]:
+                for st in b["stmts"]:
+                    if st["k"] == "assign" and st["rv"]["k"] == "agg" and st["rv"].get("ak") == "closure" and st["rv"].get("closure", "").startswith(p):
+                        kinds |= op_kind(st["rv"]["closure"])
+            n_dir += 1
+            ck.ob("C16.3", f"{p}|helper-waits-for-matching-readiness|{ev}", ev is not None and kinds == {ev}, fn=p, site=ctx.site(bb),
+                  detail=f"the operation handed to the poll helper is of kind {sorted(kinds) or 'unknown'} but the helper is told to wait for {ev}")
+    ck.floor("C16.3", "readiness-direction sites", n_dir, 6)
 
     # ---- C16.4 pointer/length agreement ---------------------------------------------------------------------------------------------
     n_pairs = 0
